@@ -77,6 +77,7 @@ fn main() {
         let n = words.get(1).cloned().unwrap_or("0").to_string();
         let mwname = words.get(2).cloned().unwrap_or("").to_string();
         let kv = Kv::parse(&words[3.min(words.len())..]);
+        set_tick_ns(if kv.get("tick") == Some("us") { 1_000 } else { 1_000_000 });
         let mut ops = Vec::new();
         for l in lines.by_ref() {
             if l.trim() == "end" {
